@@ -63,19 +63,19 @@ val stop_at_poll : nat -> flagfn
 type 's cfg = { c_pc : pc; c_st : 's; c_steps : nat; c_polls : nat }
 
 val step_ps :
-  ('a1 -> 'a1 * elim_out) -> ('a1 -> 'a1) -> ('a1 -> 'a1 * lbool option) ->
-  ('a1 -> 'a1) -> ('a1 -> 'a1 * outcome) -> ('a1 -> 'a1) -> ('a1 -> 'a1) ->
-  bool -> pc -> 'a1 -> pc * 'a1
+  bool -> ('a1 -> 'a1 * elim_out) -> ('a1 -> 'a1) -> ('a1 -> 'a1 * lbool
+  option) -> ('a1 -> 'a1 * bool) -> ('a1 -> 'a1 * outcome) -> ('a1 -> 'a1) ->
+  ('a1 -> 'a1) -> bool -> pc -> 'a1 -> pc * 'a1
 
 val step :
-  ('a1 -> 'a1 * elim_out) -> ('a1 -> 'a1) -> ('a1 -> 'a1 * lbool option) ->
-  ('a1 -> 'a1) -> ('a1 -> 'a1 * outcome) -> ('a1 -> 'a1) -> ('a1 -> 'a1) ->
-  flagfn -> 'a1 cfg -> 'a1 cfg
+  bool -> ('a1 -> 'a1 * elim_out) -> ('a1 -> 'a1) -> ('a1 -> 'a1 * lbool
+  option) -> ('a1 -> 'a1 * bool) -> ('a1 -> 'a1 * outcome) -> ('a1 -> 'a1) ->
+  ('a1 -> 'a1) -> flagfn -> 'a1 cfg -> 'a1 cfg
 
 val run :
-  ('a1 -> 'a1 * elim_out) -> ('a1 -> 'a1) -> ('a1 -> 'a1 * lbool option) ->
-  ('a1 -> 'a1) -> ('a1 -> 'a1 * outcome) -> ('a1 -> 'a1) -> ('a1 -> 'a1) ->
-  nat -> flagfn -> 'a1 cfg -> 'a1 cfg
+  bool -> ('a1 -> 'a1 * elim_out) -> ('a1 -> 'a1) -> ('a1 -> 'a1 * lbool
+  option) -> ('a1 -> 'a1 * bool) -> ('a1 -> 'a1 * outcome) -> ('a1 -> 'a1) ->
+  ('a1 -> 'a1) -> nat -> flagfn -> 'a1 cfg -> 'a1 cfg
 
 val result : 'a1 cfg -> lbool option
 
@@ -94,6 +94,7 @@ val data_race : bool -> access list -> bool
 type ev =
 | EvElim of elim_out
 | EvInit of lbool option
+| EvProp of bool
 | EvRest of outcome
 
 type script = ev list
@@ -104,10 +105,14 @@ val sc_init : script -> script * lbool option
 
 val sc_rest : script -> script * outcome
 
+val sc_prop : script -> script * bool
+
 val sc_id : script -> script
 
-val run_script : bool -> nat -> flagfn -> script -> lbool option * nat
+val run_script : bool -> bool -> nat -> flagfn -> script -> lbool option * nat
 
 val atomic : bool
 
 val lookahead_polls : bool
+
+val poll_after_conflict : bool
